@@ -286,6 +286,13 @@ func runGroup(g []*Case) {
 	}
 }
 
+func orderOf(n int) string {
+	if n%2 == 1 {
+		return "asc"
+	}
+	return "desc"
+}
+
 func aggOf(c *Case) env.Agg {
 	agg := env.Agg{Func: c.Q.Agg.Func, Interval: c.Q.Agg.Interval}
 	if c.Q.Agg.Func == "count" || c.Q.Agg.Func == "unique" {
@@ -308,7 +315,7 @@ func aggOf(c *Case) env.Agg {
 func runPair(e *env.Env, api *env.API, a, b *Case) {
 	for _, ord := range [][2]*Case{{a, b}, {b, a}} {
 		aggs := []env.Agg{aggOf(ord[0]), aggOf(ord[1])}
-		p := env.Params{From: a.Q.From, To: a.Q.To, Limit: 10, Order: "desc", WithTotal: true, Interval: a.Q.Hist, Aggs: aggs}
+		p := env.Params{From: a.Q.From, To: a.Q.To, Limit: 10, Order: orderOf(a.N + 1), WithTotal: true, Interval: a.Q.Hist, Aggs: aggs}
 		fracs := e.FM().GetAllFracs()
 		ast, _ := a.Q.AST.Build()
 		sp := e.SearchParams(p)
@@ -344,7 +351,8 @@ func runPair(e *env.Env, api *env.API, a, b *Case) {
 
 func runCase(e *env.Env, api *env.API, c *Case) {
 	agg := aggOf(c)
-	p := env.Params{From: c.Q.From, To: c.Q.To, Limit: 10, Order: "desc", WithTotal: true, Interval: c.Q.Hist, Aggs: []env.Agg{agg}}
+	// the order of the returned IDs is no part of a histogram or an aggregation: half of the cases ask in either order
+	p := env.Params{From: c.Q.From, To: c.Q.To, Limit: 10, Order: orderOf(c.N), WithTotal: true, Interval: c.Q.Hist, Aggs: []env.Agg{agg}}
 	if len(c.Exp.Agg.Buckets) > 0 {
 		nontriv.Add(1)
 	}
